@@ -221,7 +221,17 @@ def search(ctx):
                             return AlphaModel(scB, alpha=Gaussian(startB['alpha'], 0.2), noise_sd=0.05, theory=th, **OPT)
                         ctx.tried("strategy-reused-on-another-model", (sname, lens, i))
                         r_reused = hp.fit(dataB, modelB(), strategy=strat2)
-                        r_fresh = hp.fit(dataB, modelB(), strategy=S())
+                        mBf = modelB()
+                        r_fresh = hp.fit(dataB, mBf, strategy=S())
+                        # the result of a fit under Gaussian priors (what make_center_priors hands out) reports the model's own
+                        # posterior and hologram at the parameters it reports, like any other
+                        gfv = [r_fresh.parameters[nm] for nm in names]
+                        lpf = mBf.lnposterior(gfv, r_fresh.data)
+                        if not (abs(r_fresh.max_lnprob - lpf) <= 1e-9 * max(1, abs(lpf))):
+                            ctx.violation("C13:result-lnprob:gaussian-priors:%s" % sname, "Gaussian priors: result.max_lnprob = %r, the model's posterior at the reported parameters = %r" % (r_fresh.max_lnprob, lpf),
+                                          dict(info2, truthB=truthB, startB=startB))
+                        if not (float(np.abs(np.asarray(r_fresh.hologram.values).ravel() - np.asarray(mBf.forward(gfv, dataB).values).ravel()).max()) <= 1e-12):
+                            ctx.violation("C13:result-hologram:gaussian-priors:%s" % sname, "Gaussian priors: result.hologram is not the forward model at the reported parameters", dict(info2, truthB=truthB, startB=startB))
                         gr, gf = [r_reused.parameters[nm] for nm in names], [r_fresh.parameters[nm] for nm in names]
                         if not (max(abs(a - b) for a, b in zip(gr, gf)) <= 1e-7):
                             ctx.violation("C13:strategy-reuse:%s" % sname, "a strategy object that has fitted a bounded model gives %r for another (unbounded) model and data set, a fresh strategy %r (generating values %r)" % (
@@ -242,6 +252,10 @@ def search(ctx):
                             ctx.tried("guess-on-bound", (sname, which, lens, i))
                             rb_ = hp.fit(datab, mb_, strategy=S())
                             gotb = [rb_.parameters[nm] for nm in names]
+                            lpb_ = mb_.lnposterior(gotb, rb_.data)
+                            if not (abs(rb_.max_lnprob - lpb_) <= 1e-9 * max(1, abs(lpb_))):
+                                ctx.violation("C13:result-lnprob:guess-on-bound:%s" % sname, "guess on a bound: result.max_lnprob = %r, the model's posterior at the reported parameters = %r" % (rb_.max_lnprob, lpb_),
+                                              dict(info, which=which, generating=tb))
                             wantb = [tb['r'], tb['x'], tb['y'], tb['z'], tb['alpha']]
                             if not (max(abs(a - b) / max(1, abs(b)) for a, b in zip(gotb, wantb)) <= (5e-3 if lens else 1e-3)):
                                 ctx.violation("C13:recovery:guess-on-bound:%s" % sname, "guess of one parameter exactly on a bound of its prior (%s), generating value inside: the fit returns %r, generating parameters %r" % (which, gotb, wantb),
